@@ -25,6 +25,9 @@ import (
 	"io/ioutil"
 	"net/http"
 	"net/http/httptest"
+	"os"
+	"path/filepath"
+	"sort"
 	"strings"
 	"testing"
 	"time"
@@ -107,6 +110,9 @@ type c06VolSpec struct {
 type c06KsCase struct {
 	Vols  []c06VolSpec `json:"volumes"`
 	Route string       `json:"route"` // index | index-prefix | mount0 | mount1
+	// part (b3): real Directory volumes (see c06RealCheck); Prefix is the requested hash prefix
+	Real   []c06RealVol `json:"real_volumes,omitempty"`
+	Prefix string       `json:"prefix,omitempty"`
 }
 
 const c06KsToken = "c06systemroottokenc06systemroottokenc06systemroottoken"
@@ -270,6 +276,10 @@ func TestVerifC06Keepstore(t *testing.T) {
 	defer r.Write()
 	var rc c06KsCase
 	if vrep.ReplayDoc(&rc) {
+		if len(rc.Real) > 0 {
+			c06RealCheck(r, rc)
+			return
+		}
 		c06KsCheck(r, rc)
 		return
 	}
@@ -309,4 +319,229 @@ func TestVerifC06Keepstore(t *testing.T) {
 		}
 	}
 	r.Extra("keepstore_volume_behaviours", fmt.Sprint(len(specs)))
+	c06RealAll(r, &idx)
+}
+
+
+// ---------------------------------------------------------------------------------------------
+// C06 part (b3) - the real UnixVolume.IndexTo behind the real handler, on real directories.
+//
+// A volume root holds up to two hash-prefix entries ("37b", "acb"), each one of
+//   absent | dir (a directory holding one block + a temp file + a trashed copy) |
+//   linkdir (a symlink to such a directory elsewhere: listable) |
+//   dangling (a symlink to a directory that is not there, e.g. a disk that is not mounted) |
+//   loop (a symlink to itself) | file (a regular file where a directory is expected),
+// optionally next to entries that are not block directories (a dangling link "lost", a file "README").
+// The last three shapes cannot be listed: IndexTo has no way to know which blocks they hold.
+// Oracle (statement: "an index ... is reported as an error"; mechanism: "terminating newline only
+// after every volume indexed without error"): if an entry that could hold blocks with the requested
+// prefix (3 hex digits, entry name and prefix one a prefix of the other) cannot be listed on an
+// indexed volume, no reader accepts the response as a complete index.  Otherwise every reader
+// accepts it and gets exactly the blocks stored under the listable entries that carry the prefix.
+type c06RealVol struct {
+	Slots   [2]string `json:"slots"`
+	Distrct bool      `json:"non_block_entries"`
+}
+
+var c06RealShapes = []string{"absent", "dir", "linkdir", "dangling", "loop", "file"}
+var c06RealHash = []string{"37b51d194a7513e45b56f6524f2d51f2", "acbd18db4cc2f85cedef654fccc4a4d8"}
+var c06RealMtime = []time.Time{time.Unix(1388894303, 0), time.Unix(1388894303, 123456789)}
+
+func c06RealMust(err error) {
+	if err != nil {
+		panic(err)
+	}
+}
+
+func c06RealBuild(base string, vi int, rv c06RealVol) string {
+	root := filepath.Join(base, fmt.Sprintf("vol%d", vi))
+	c06RealMust(os.MkdirAll(root, 0755))
+	for si, shape := range rv.Slots {
+		h := c06RealHash[si]
+		ent := filepath.Join(root, h[:3])
+		fill := func(dir string) {
+			c06RealMust(os.MkdirAll(dir, 0755))
+			c06RealMust(ioutil.WriteFile(filepath.Join(dir, h), []byte("foo"), 0644))
+			c06RealMust(os.Chtimes(filepath.Join(dir, h), c06RealMtime[si], c06RealMtime[si]))
+			c06RealMust(ioutil.WriteFile(filepath.Join(dir, "tmp"+h+"123456"), []byte("fo"), 0644))
+			c06RealMust(ioutil.WriteFile(filepath.Join(dir, h+".trash.1999999999"), []byte("foo"), 0644))
+		}
+		switch shape {
+		case "dir":
+			fill(ent)
+		case "linkdir":
+			other := filepath.Join(base, fmt.Sprintf("elsewhere%d-%d", vi, si))
+			fill(other)
+			c06RealMust(os.Symlink(other, ent))
+		case "dangling":
+			c06RealMust(os.Symlink(filepath.Join(base, "not-mounted", h[:3]), ent))
+		case "loop":
+			c06RealMust(os.Symlink(h[:3], ent))
+		case "file":
+			c06RealMust(ioutil.WriteFile(ent, []byte("x"), 0644))
+		}
+	}
+	if rv.Distrct {
+		c06RealMust(os.Symlink(filepath.Join(base, "not-mounted", "lost"), filepath.Join(root, "lost")))
+		c06RealMust(ioutil.WriteFile(filepath.Join(root, "README"), []byte("x"), 0644))
+		c06RealMust(os.MkdirAll(filepath.Join(root, "37"), 0755))
+	}
+	return root
+}
+
+func c06RealCovers(entry, prefix string) bool {
+	return strings.HasPrefix(entry, prefix) || strings.HasPrefix(prefix, entry)
+}
+
+func c06RealCheck(r *vrep.Report, c c06KsCase) {
+	base := filepath.Join(vrep.Scratch(), "c06real")
+	os.RemoveAll(base)
+	defer os.RemoveAll(base)
+	cluster := &arvados.Cluster{ClusterID: "zzzzz"}
+	cluster.SystemRootToken = c06KsToken
+	cluster.API.MaxKeepBlobBuffers = 2
+	quiet := logrus.New()
+	quiet.Out = ioutil.Discard
+	if bufs == nil {
+		bufs = newBufferPool(quiet, cluster.API.MaxKeepBlobBuffers, BlockSize)
+	}
+	vm := &RRVolumeManager{mountMap: map[string]*VolumeMount{}, iostats: map[Volume]*ioStats{}}
+	for i, rv := range c.Real {
+		root := c06RealBuild(base, i, rv)
+		uv := &UnixVolume{Root: root, cluster: cluster, volume: arvados.Volume{Driver: "Directory", Replication: 1}, logger: quiet}
+		mnt := &VolumeMount{KeepMount: arvados.KeepMount{UUID: fmt.Sprintf("zzzzz-nyw5e-00000000000000%d", i), Replication: 1,
+			StorageClasses: map[string]bool{"default": true}}, Volume: uv}
+		vm.mounts = append(vm.mounts, mnt)
+		vm.mountMap[mnt.UUID] = mnt
+		vm.readables = append(vm.readables, mnt)
+		vm.writables = append(vm.writables, mnt)
+		vm.iostats[uv] = &ioStats{}
+	}
+	h := MakeRESTRouter(context.Background(), cluster, prometheus.NewRegistry(), vm, NewWorkQueue(), NewWorkQueue())
+	indexed := c.Real
+	target := ""
+	switch c.Route {
+	case "index":
+		target = "/index"
+		if c.Prefix != "" {
+			target = "/index/" + c.Prefix
+		}
+	case "mount0":
+		target = "/mounts/zzzzz-nyw5e-000000000000000/blocks?prefix=" + c.Prefix
+		indexed = c.Real[:1]
+	case "mount1":
+		target = "/mounts/zzzzz-nyw5e-000000000000001/blocks?prefix=" + c.Prefix
+		indexed = c.Real[1:2]
+	}
+	req := httptest.NewRequest("GET", target, nil)
+	req.Header.Set("Authorization", "OAuth2 "+c06KsToken)
+	rec := httptest.NewRecorder()
+	h.ServeHTTP(rec, req)
+	status, body := rec.Code, rec.Body.Bytes()
+
+	unlistable := ""
+	var want []string
+	for vi, rv := range indexed {
+		for si, shape := range rv.Slots {
+			hsh := c06RealHash[si]
+			if !c06RealCovers(hsh[:3], c.Prefix) {
+				continue
+			}
+			switch shape {
+			case "dangling", "loop", "file":
+				unlistable = fmt.Sprintf("volume %d entry %s (%s)", vi, hsh[:3], shape)
+			case "dir", "linkdir":
+				if strings.HasPrefix(hsh, c.Prefix) {
+					want = append(want, fmt.Sprintf("%s+3 %d", hsh, c06RealMtime[si].UnixNano()))
+				}
+			}
+		}
+	}
+	sort.Strings(want)
+	r.Eval(1)
+	if unlistable != "" {
+		r.Distinct(fmt.Sprintf("real %+v %s %q", c.Real, c.Route, c.Prefix))
+	}
+	for _, reader := range []string{"arvados.KeepService.IndexMount", "arvados.KeepService.Index", "keepclient.GetIndex"} {
+		for _, cl := range []bool{false, true} {
+			accepted, got, _ := c06KsRead(reader, &c06KsTransport{status: status, body: body, cl: cl})
+			lines := strings.Split(strings.TrimSuffix(got, "\n"), "\n")
+			if got == "" {
+				lines = nil
+			}
+			if reader == "keepclient.GetIndex" {
+				// raw text: "<hash>+<size> <unixnano>" lines and the terminating blank line
+				var ls []string
+				for _, l := range lines {
+					if l != "" {
+						ls = append(ls, l)
+					}
+				}
+				lines = ls
+			}
+			sort.Strings(lines)
+			same := strings.Join(lines, "|") == strings.Join(want, "|")
+			switch {
+			case unlistable != "" && accepted:
+				r.Outcome("real:" + reader + ": response of an index that skipped a directory accepted")
+				r.Violation("keepstore-index:unlistable-directory-but-index-accepted:"+reader,
+					fmt.Sprintf("real Directory volumes %+v, route %s prefix %q: %s cannot be listed, but the handler's response (status %d, body %q) is accepted by %s as a complete index: %q",
+						c.Real, c.Route, c.Prefix, unlistable, status, body, reader, got), c)
+			case unlistable != "":
+				r.Outcome("real:" + reader + ": response of an index that skipped a directory rejected")
+			case accepted && same:
+				r.Outcome("real:" + reader + ": complete index accepted, entries as stored")
+			case accepted:
+				r.Outcome("real:" + reader + ": complete index accepted but entries differ")
+				r.Violation("keepstore-index:complete-index-differs-from-volume-contents:"+reader,
+					fmt.Sprintf("real Directory volumes %+v, route %s prefix %q: every directory is listable, %s accepted the response (status %d, body %q) but got %q, stored %q",
+						c.Real, c.Route, c.Prefix, reader, status, body, lines, want), c)
+			default:
+				r.Outcome("real:" + reader + ": complete index rejected")
+				r.Violation("keepstore-index:complete-index-rejected:"+reader,
+					fmt.Sprintf("real Directory volumes %+v, route %s prefix %q: every directory is listable but %s rejects the response (status %d, body %q)",
+						c.Real, c.Route, c.Prefix, reader, status, body), c)
+			}
+		}
+	}
+	if unlistable != "" && len(c.Real) == 2 && c.Route == "index" && c.Prefix == "3" {
+		r.Sample(map[string]interface{}{"case": c, "status": status, "body": string(body), "unlistable": unlistable})
+	}
+}
+
+func c06RealAll(r *vrep.Report, idx *int64) {
+	var vols, plain []c06RealVol
+	for _, a := range c06RealShapes {
+		for _, b := range c06RealShapes {
+			plain = append(plain, c06RealVol{Slots: [2]string{a, b}})
+			vols = append(vols, c06RealVol{Slots: [2]string{a, b}})
+			vols = append(vols, c06RealVol{Slots: [2]string{a, b}, Distrct: true})
+		}
+	}
+	prefixes := []string{"", "3", "37b", "37b5", "37b51d194a7513e45b56f6524f2d51f2", "a", "ac", "f"}
+	n := 0
+	run := func(c c06KsCase) {
+		*idx++
+		n++
+		if vrep.Mine(*idx) {
+			c06RealCheck(r, c)
+		}
+	}
+	for _, v0 := range vols {
+		for _, p := range prefixes {
+			run(c06KsCase{Real: []c06RealVol{v0}, Route: "index", Prefix: p})
+			run(c06KsCase{Real: []c06RealVol{v0}, Route: "mount0", Prefix: p})
+		}
+	}
+	for _, v0 := range plain {
+		for _, v1 := range plain {
+			for _, p := range prefixes[:5] {
+				run(c06KsCase{Real: []c06RealVol{v0, v1}, Route: "index", Prefix: p})
+				if p == "" || p == "37b" {
+					run(c06KsCase{Real: []c06RealVol{v0, v1}, Route: "mount1", Prefix: p})
+				}
+			}
+		}
+	}
+	r.Extra("keepstore_real_volume_cases", fmt.Sprint(n))
 }
